@@ -54,11 +54,13 @@ impl Gen {
                                                  "err_kind": scanindexes::err_kind(rng), "err_mid": tf(rng.chance(1, 2))})))
             }
             "pkgdb" => {
-                let n = rng.range(0, 5);
+                // scale: more directory entries than a read-ahead batch
+                let n = if rng.chance(1, 60) { *rng.pick(&[64usize, 65, 66, 130, 200]) } else { rng.range(0, 5) };
                 let mut used: Vec<String> = vec![];
                 let mut es = vec![];
-                for _ in 0..n {
+                for k in 0..n {
                     let name = match rng.below(5) {
+                        _ if n > 10 => format!("pkg{:04}-{}.{}nb{}", k, rng.below(3), rng.below(10), rng.below(3)),
                         0 => rng.pick_str(&["nodash", "x-", "-1", "a--2", "é-1.0"]).to_string(),
                         _ => format!("{}-{}", rng.pick_str(&["a", "py39-foo", "lib-b-c", "x"]), rng.pick_str(&["1", "1.0nb2", "2.3.4", "0alpha1nb10"])),
                     };
@@ -73,7 +75,8 @@ impl Gen {
                     let files = if dir { files } else { vec![] };
                     // zero-length '+' files exist all the same; a name that is not UTF-8 on disk
                     let empty: Vec<usize> = files.iter().copied().filter(|_| rng.chance(1, 6)).collect();
-                    es.push(json!({"name": codes(&name), "dir": tf(dir), "files": files, "empty": empty, "raw": tf(rng.chance(1, 12))}));
+                    // "big": the '+' files are longer than 8 KiB with a multi-byte character across the 8192nd byte
+                    es.push(json!({"name": codes(&name), "dir": tf(dir), "files": files, "empty": empty, "raw": tf(rng.chance(1, 12)), "big": tf(rng.chance(1, 25))}));
                 }
                 let root = match rng.below(12) { 0 => "file", 1 => "missing", _ => "dir" };
                 Some(("pkgdb".into(), json!({"root": root, "entries": if root == "dir" { es } else { vec![] }})))
@@ -88,6 +91,8 @@ impl Gen {
                         3 => "abc".to_string(),
                         4 => "line one\nline two\r\n\nlast".replace("\\n", "\n").replace("\\r", "\r"),
                         5 => "  \n\t ".replace("\\n", "\n").replace("\\t", "\t"),
+                        // rare values: nothing but blanks that are not ASCII blanks
+                        7 if rng.chance(1, 2) => { let mut s = String::new(); for _ in 0..rng.range(1, 3) { s.push(*rng.pick(&UNI_BLANKS)); } s }
                         6 => "99999999999999999999".to_string(),
                         _ => summaries::text(rng),
                     };
@@ -238,8 +243,21 @@ impl Gen {
                         break (p, names);
                     }
                 };
-                let a = names[rng.below(names.len())].clone();
-                let b = if rng.chance(1, 8) { a.clone() } else { names[rng.below(names.len())].clone() };
+                let mut a = names[rng.below(names.len())].clone();
+                let mut b = if rng.chance(1, 8) { a.clone() } else { names[rng.below(names.len())].clone() };
+                // now and then a component at or beyond the limit of i64 against whatever the other
+                // candidate has there (outside C01's domain: only the order-free laws are judged)
+                if rng.chance(1, 12) {
+                    if let Some(i) = a.rfind(|c: char| c.is_ascii_digit()) {
+                        let big = rng.pick_str(&["9223372036854775807", "9223372036854775806", "9223372036854775805", "99999999999999999999", "20261005123456789012345"]);
+                        if rng.chance(1, 2) {
+                            // the other candidate has a modifier in the same position
+                            b = a.clone();
+                            b.replace_range(i..i + 1, rng.pick_str(&["rc1", "alpha", "beta2", "pre", "RC", "pl1", ".1"]));
+                        }
+                        a.replace_range(i..i + 1, big);
+                    }
+                }
                 Some(("best".into(), json!({"p": codes(&p), "a": codes(&a), "b": codes(&b)})))
             }
             _ => None,
